@@ -20,10 +20,11 @@ from ..runner import Check
 from . import poolreg as R
 
 FUEL = 400_000
-# CoreSet is not used as inner strategy: with index candidates that contain labeled samples it returns indices
-# outside the candidate set / duplicates (a pure single-call defect of CoreSet, C01's business), which the
-# wrapper can only pass on
-INNER = ["RandomSampling", "UncertaintySampling:entropy", "UncertaintySampling:margin_sampling", "ProbabilisticAL", "EpistemicUncertaintySampling", "Falcun", "QueryByCommittee:vote_entropy", "QueryByCommittee:KL_divergence", "ContrastiveAL"]
+# every classification entry of the registry is wrapped (quantifier: "SingleAnnotatorWrapper around every
+# single-annotator strategy"); the cheap ones are over-represented
+INNER_LIGHT = ["CoreSet", "RandomSampling", "UncertaintySampling:entropy", "UncertaintySampling:margin_sampling", "ProbabilisticAL", "EpistemicUncertaintySampling", "Falcun", "QueryByCommittee:vote_entropy", "QueryByCommittee:KL_divergence", "ContrastiveAL"]
+INNER_ALL = [k for k, e in R.ENTRIES.items() if e["task"] == "clf" and not e["flags"].get("wrap") and not e["flags"].get("kernel_X")]
+INNER = INNER_LIGHT * 3 + INNER_ALL
 
 
 def _aggregator(name):
@@ -95,6 +96,8 @@ class C07Check(Check):
             offline = [a for a in range(na) if f.chance(f.pick([0.0, 0.2, 0.5]))]
             blocked = [[i, a] for i in range(n) for a in range(na) if f.chance(f.pick([0.0, 0.1, 0.4]))]
             cand = g.pick(["none", "none", "idx", "rows"])
+            if cand == "rows" and subject.startswith("SAW:") and R.ENTRIES[subject[4:]]["flags"].get("rows") is False:
+                cand = "idx"  # strategies that need the position of the candidates in X refuse feature rows by documentation
             avail = g.pick(["none", "idx", "bool", "bool"])
             cyc = {
                 "offline": offline,
@@ -201,6 +204,14 @@ class C07Check(Check):
             if bs > n_avail:
                 ctx.probe("batch_clipped")
             cond = {"cand": cyc["cand"], "avail": cyc["avail"], "subject": sc["subject"].split(":")[0]}
+            if ":" in sc["subject"]:
+                cond["inner"] = sc["subject"].split(":", 1)[1].split(":")[0]
+                # a sample already labeled by one annotator that is still offered to the others: the wrapped
+                # strategy sees a *labeled* candidate
+                sel_rows = np.asarray(rows)[A.sum(axis=1) > 0]
+                if cyc["cand"] != "rows" and len(sel_rows) and (~np.isnan(y[sel_rows])).any():
+                    cond["labeled_candidates"] = True
+                    ctx.probe("labeled_sample_still_candidate")
             call = dict(kw)
             if cyc["cand"] == "rows":
                 call["candidates"] = X[rows].copy()
@@ -350,6 +361,9 @@ class C07Check(Check):
                     cy["blocked"] = [[a if a < i else a - 1, b] for a, b in cy["blocked"] if a != i]
                     if cy["cand_idx"] is not None:
                         cy["cand_idx"] = [a if a < i else a - 1 for a in cy["cand_idx"] if a != i] or [0]
+                    ap = cy.get("A_perf")
+                    if ap is not None and ap and isinstance(ap[0], list):
+                        del ap[i]  # one row of estimates per sample
                 yield c
         na = len(sc["y0"][0])
         if na > 1:
@@ -359,6 +373,9 @@ class C07Check(Check):
             for cy in c["cycles"]:
                 cy["blocked"] = [[a, b] for a, b in cy["blocked"] if b < na - 1]
                 cy["offline"] = [a for a in cy["offline"] if a < na - 1]
+                ap = cy.get("A_perf")
+                if ap is not None:
+                    cy["A_perf"] = [r[:-1] for r in ap] if isinstance(ap[0], list) else ap[:-1]
             yield c
         for j, cy in enumerate(cyc):
             for key, simple in (("batch_size", 1), ("batch_size", 2), ("napa", 1), ("offline", []), ("blocked", [])):
@@ -366,6 +383,10 @@ class C07Check(Check):
                     c = copy.deepcopy(sc)
                     c["cycles"][j][key] = simple
                     yield c
+            if cy.get("A_perf") is not None:
+                c = copy.deepcopy(sc)
+                c["cycles"][j]["A_perf"] = None
+                yield c
             if cy["cand"] != "none":
                 c = copy.deepcopy(sc)
                 c["cycles"][j]["cand"] = "none"
